@@ -25,17 +25,39 @@ META = dict(
 
 # ---- signatures of the defects of the pinned tree (see known_findings.txt)
 SIG_D20 = 'ctxstack.late_finish_reslice'
-# D7: no lock at all around cancelFns in the pinned ctxstack.go: trigger goroutine (New.func1, lines 32/33) against
-# Push (54: the context handed over through the slice, 57: append) and the pop closure (69: re-slice)
-PINNED_TRIG = {('ctxstack.New.func1', 32), ('ctxstack.New.func1', 33)}
-PINNED_EVAL = {('ctxstack.(*Stack).Push', 54), ('ctxstack.(*Stack).Push', 57), ('ctxstack.(*Stack).Push.func1', 69)}
-SIG_D7_RACE = 'race:ctxstack.go:unlocked-cancelFns@New.func1:32,33~Push:54,57,69'
-SIG_D7_CRASH = 'crash:ctxstack.go:New.func1:33:index-out-of-range'
+# D7: no lock at all around cancelFns in the pinned ctxstack.go.  Recognised by the STATEMENTS of the pinned source that the
+# report points at (robust against line shifts, e.g. by the hook one-liners) in a ctxstack.go that has no mutex at all:
+# the trigger goroutine (New.func1, pinned lines 32/33) against Push (54: the context handed over through the slice,
+# 57: append) and the pop closure (69: re-slice).
+PINNED_TRIG = {'if len(s.cancelFns) > 0 {', 's.cancelFns[len(s.cancelFns)-1]()'}
+PINNED_EVAL = {'stackCtx, stackCtxCancel := context.WithCancel(parent)', 's.cancelFns = append(s.cancelFns, stackCtxCancel)',
+               's.cancelFns = s.cancelFns[0:stackIdx]'}
+SIG_D7_RACE = 'race:ctxstack.go:unlocked-cancelFns:New.func1~Push'
+SIG_D7_CRASH = 'crash:ctxstack.go:unlocked-cancelFns:New.func1:index-out-of-range'
+
+_src = {}
 
 
-def mc_cfg(locked, flag, push, depth, intr, calls, props):
-    return ('SPECIFICATION Spec\nCONSTANTS Locked = %s\n EntryFlag = %s\n MaxPush = %d\n MaxDepth = %d\n MaxIntr = %d\n MaxCalls = %d\n%s\n'
-            % ('TRUE' if locked else 'FALSE', 'TRUE' if flag else 'FALSE', push, depth, intr, calls, props))
+def stmt(frame):
+    """source statement a report frame (func, file, line, path) points at, in the tree under test"""
+    path = frame[3]
+    if path not in _src:
+        try:
+            _src[path] = open(path).read().split('\n')
+        except OSError:
+            _src[path] = []
+    lines = _src[path]
+    return lines[frame[2] - 1].strip() if 0 < frame[2] <= len(lines) else ''
+
+
+def unlocked(frame):
+    stmt(frame)
+    return not any('sync.' in l or 'atomic.' in l for l in _src.get(frame[3], ['sync.']))
+
+
+def mc_cfg(locked, flag, push, depth, intr, calls, props, atomic_index=False):
+    return ('SPECIFICATION Spec\nCONSTANTS Locked = %s\n EntryFlag = %s\n AtomicIndex = %s\n MaxPush = %d\n MaxDepth = %d\n MaxIntr = %d\n MaxCalls = %d\n%s\n'
+            % ('TRUE' if locked else 'FALSE', 'TRUE' if flag else 'FALSE', 'TRUE' if atomic_index else 'FALSE', push, depth, intr, calls, props))
 
 
 ALL_PROPS = ('INVARIANT NoCrash NoRace StopAll FinishedCancelled Consistent\n'
@@ -64,6 +86,11 @@ def mc_arm(ctx):
         mc['as_built_unlocked_violates_' + inv] = (r.violated == inv)
         if r.violated != inv:
             raise Inconclusive('as-built (unlocked) model no longer violates %s: model broken? rc=%s violated=%s' % (inv, r.rc, r.violated))
+    # the same fault at the grain at which Go source can be gated (index expression = one step): schedule for the gate replay
+    r = ctx.tlc('CtxStack', 'mc_built_NoCrash_stmt.cfg', cfg_text=mc_cfg(False, False, *small, 'INVARIANT NoCrash', atomic_index=True), timeout=600, count=False)
+    if r.violated != 'NoCrash':
+        raise Inconclusive('as-built model at statement grain does not violate NoCrash: rc=%s violated=%s' % (r.rc, r.violated))
+    cex = r.rundir
     # as built keeps the rest (what fails is exactly safety of the shared slice)
     if thorough:
         r = ctx.tlc('CtxStack', 'mc_built_rest.cfg', cfg_text=mc_cfg(False, False, *small, 'INVARIANT StopAll FinishedCancelled\nPROPERTY Termination'), timeout=1500)
@@ -76,6 +103,7 @@ def mc_arm(ctx):
     r = ctx.tlc('CtxStack', 'mc_lockonly_rest.cfg', cfg_text=mc_cfg(True, False, *small,
                 'INVARIANT NoCrash NoRace StopAll FinishedCancelled\nPROPERTY Enclosing Finished Termination'), timeout=1500)
     ctx.tlc_expect_ok(r, 'mutex-only model: all but Innermost')
+    return cex
 
 
 # ------------------------------------------------------------------------------------------------ sequential arms
@@ -224,7 +252,7 @@ def fq_frame(frames):
         if '/internal/verif/' in path or 'wader/fq/internal/verif' in fn:
             continue
         if 'github.com/wader/fq/' in fn:
-            return (fn.split('/')[-1], os.path.basename(path), int(line))
+            return (fn.split('/')[-1], os.path.basename(path), int(line), path)
     return None
 
 
@@ -247,14 +275,17 @@ def race_sig(sides):
     named = [s for s in sides if s]
     if not named:
         return None
-    key = {(s[0], s[2]) for s in named if s[1] == 'ctxstack.go'}
-    if len(named) == 2 and len(key) == 2 and len(key & PINNED_TRIG) == 1 and len(key & PINNED_EVAL) == 1:
-        return SIG_D7_RACE
+    if len(named) == 2 and all(s[1] == 'ctxstack.go' and unlocked(s) for s in named):
+        trig = [s for s in named if s[0] == 'ctxstack.New.func1' and stmt(s) in PINNED_TRIG]
+        ev = [s for s in named if s[0].startswith('ctxstack.(*Stack).Push') and stmt(s) in PINNED_EVAL]
+        if len(trig) == 1 and len(ev) == 1:
+            return SIG_D7_RACE
     return 'race:' + '~'.join(sorted('%s:%s:%d' % (s[1], s[0], s[2]) for s in named))
 
 
 def panic_sig(msg, frame):
-    if frame and frame[1] == 'ctxstack.go' and (frame[0], frame[2]) == ('ctxstack.New.func1', 33) and 'index out of range' in msg:
+    if (frame and frame[1] == 'ctxstack.go' and frame[0] == 'ctxstack.New.func1' and 'index out of range' in msg
+            and stmt(frame) == 's.cancelFns[len(s.cancelFns)-1]()' and unlocked(frame)):
         return SIG_D7_CRASH
     if frame:
         return 'crash:%s:%s:%d:%s' % (frame[1], frame[0], frame[2], re.sub(r'[^A-Za-z]+', '-', msg)[:60])
@@ -277,7 +308,7 @@ def run_harness(ctx, cmd, what, timeout=600, env=None):
             continue
         res['races'] += 1
         res['d7'] = res['d7'] or sig == SIG_D7_RACE
-        ctx.finding(sig, '%s: DATA RACE between %s and %s' % (what, sides[0], sides[1] if len(sides) > 1 else None), dict(kind='race', mode=cmd[1:], sides=sides))
+        ctx.finding(sig, '%s: DATA RACE between %s and %s' % (what, sides[0] and sides[0][:3], sides[1][:3] if len(sides) > 1 and sides[1] else None), dict(kind='race', mode=cmd[1:], sides=sides))
     if r.returncode == 3:
         raise Inconclusive('harness machinery error in %s: %s' % (what, r.stderr[-400:]))
     if r.returncode == 4 or 'all goroutines are asleep' in r.stderr:
@@ -294,7 +325,7 @@ def run_harness(ctx, cmd, what, timeout=600, env=None):
         st['crashes'] += 1
         res['crashed'] = True
         res['d7'] = res['d7'] or sig == SIG_D7_CRASH
-        ctx.finding(sig, '%s: %s at %s' % (what, msg, frame), dict(kind='crash', mode=cmd[1:], stderr=r.stderr[-3000:]))
+        ctx.finding(sig, '%s: %s at %s' % (what, msg, frame and frame[:3]), dict(kind='crash', mode=cmd[1:], stderr=r.stderr[-3000:]))
     if r.returncode not in (0, 66) and not res['crashed']:
         raise Inconclusive('%s: harness exit %d without a recognised report: %s' % (what, r.returncode, r.stderr[-600:]))
     return res
@@ -416,7 +447,76 @@ def interp_arm(ctx):
     ctx.cov['interp_level'] = dict(nested_runs=runs, nested_events=nev, storm_runs=sruns, storm_race_reports=res2['races'])
 
 
+GATE_POINTS = {'p_elem': ('EV', 'push.append'), 'c_trunc': ('EV', 'pop.truncate'), 's_len': ('EV', 'stop'),
+               't_len': ('TR', 'trigger.len'), 't_len2': ('TR', 'trigger.index')}
+
+
+def schedule_from_counterexample(stdout_path):
+    """TLC counterexample of CtxStack.tla -> events for `c20 gate` (operation starts, interrupts, hook points passed)."""
+    txt = open(stdout_path, errors='replace').read()
+    states = re.split(r'\nState \d+: ', txt)[1:]
+    evs, prev_intr = [], 0
+    for st in states:
+        head = st.split('\n', 1)[0]
+        m = re.match(r'<(\w+) line', head)
+        v = dict(re.findall(r'/\\ (\w+) = ([^\n]*)', st))
+        intr = int(v.get('intr', '0'))
+        if m:
+            lab = m.group(1)
+            pcs = re.findall(r'"(\w+)"', v.get('pc', ''))
+            if lab == 'ev_loop' and pcs:
+                if pcs[0] == 'p_lock':
+                    evs.append(dict(k='op', op='push', a=0))
+                elif pcs[0] == 'c_lock':
+                    evs.append(dict(k='op', op='fin', a=int(v['cur'])))
+                elif pcs[0] == 's_lock':
+                    evs.append(dict(k='op', op='stop', a=0))
+            elif lab == 't_wait' and intr > prev_intr:
+                evs.append(dict(k='intr'))
+            elif lab in GATE_POINTS:
+                evs.append(dict(k='gate', who=GATE_POINTS[lab][0], point=GATE_POINTS[lab][1]))
+        prev_intr = intr
+    return evs
+
+
+def gate_arm(ctx, cex_rundir):
+    """Replay TLC's NoCrash counterexample of the unlocked model through the scheduler gates on the real code (DESIGN C20 (a)).
+    Only possible when the verifHook call sites (repo_patches/C20-hooks.diff) are in the tree."""
+    if not os.path.exists(os.path.join(vlib.REPO, 'internal', 'ctxstack', 'hook_verif.go')):
+        ctx.cov['gate_replay'] = 'skipped: verifHook call sites (repo_patches/C20-hooks.diff) are not in the tree'
+        return
+    evs = schedule_from_counterexample(os.path.join(cex_rundir, 'stdout.txt'))
+    if sum(1 for e in evs if e['k'] == 'gate') < 3 or not any(e['k'] == 'intr' for e in evs):
+        raise Inconclusive('could not derive a gate schedule from the TLC counterexample: %s' % evs)
+    sp = os.path.join(ctx.build, 'gate_schedule.json')
+    json.dump(evs, open(sp, 'w'))
+    bing = ctx.go_build('c20', name='c20_gate', tags='verif,verifhooks')
+    r = ctx.run([bing, 'gate', sp], timeout=120)
+    out = None
+    for line in r.stdout.splitlines():
+        if line.startswith('{'):
+            out = json.loads(line)
+    # a crash (the fault the schedule predicts) is parsed and reported by run_harness; run it through the same path
+    res = run_harness(ctx, [bing, 'gate', sp], 'gate', timeout=120) if r.returncode != 0 else dict(crashed=False)
+    ctx.cov['gate_replay'] = dict(schedule=[(e.get('who') or 'EV' if e['k'] != 'intr' else 'TR', e.get('point') or e.get('op') or 'interrupt') for e in evs],
+                                  outcome=('fault reproduced: process died' if res['crashed'] else out))
+    ctx.cov['evaluations'] += len(evs)
+    if not res['crashed'] and out is None:
+        raise Inconclusive('gate replay gave no outcome: rc=%s %s' % (r.returncode, r.stderr[-400:]))
+
+
 def run(ctx):
+    orig_tlc = ctx.tlc
+
+    def tlc_retry(*a, **k):
+        # other builders share the machine and `pkill` TLC processes: a run killed by a signal is repeated
+        for attempt in range(4):
+            r = orig_tlc(*a, **k)
+            if r.rc not in (-15, -9, 143, 137):
+                return r
+            vlib.log('TLC run was killed by a signal (rc=%s), repeating' % r.rc)
+        return r
+    ctx.tlc = tlc_retry
     ctx.cov['rule'] = ('An evaluation = one operation (push/finish/interrupt/stop/observation) applied to a real ctxstack.Stack with ctx.Err() of '
                        'every context compared. distinct non-trivial = TLC-emitted sequences with >= 2 pushes, a finish and an interrupt or stop '
                        '(all distinct by construction) + random histories with >= 3 pushes, an interrupt and a finish.')
@@ -429,7 +529,7 @@ def run(ctx):
     ctx.cov['trusted_base'] += ['checks/c20.py: equality of recorded vectors with TLC-emitted expectations; stderr parser for DATA RACE / panic reports',
                                 'harness/c20/main.go: rig (controllable trigger function; interrupt = trigger returns once, acknowledged when the '
                                 'trigger function is called again)']
-    mc_arm(ctx)
+    cex = mc_arm(ctx)
     binp = ctx.go_build('c20')
     cases, outs, d20a = seq_gen_arm(ctx, binp)
     d20b = seq_rand_arm(ctx, binp, cases, outs)
@@ -438,6 +538,7 @@ def run(ctx):
     # history is rejected for the known sequential reason and the concurrent question is not answered)
     conc_arm(ctx, binp, binr, late=not (d20a or d20b), racy=tot['d7'])
     interp_arm(ctx)
+    gate_arm(ctx, cex)
 
 
 def replay(ctx, path):
